@@ -22,7 +22,7 @@ from harness import translators
 from harness.core import coq_eval_cases, q_lit, run_impl_parallel
 from harness.struct_common import SUFF, arr, node_coords, qfrac, to_impl, uv
 
-HEADER = ("From Coq Require Import QArith List.\nFrom SV Require Import model.TubeMech gen.TubeMesh.\n"
+HEADER = ("From Coq Require Import QArith List.\nFrom SV Require Import model.TubeMech.\n"
           "Import ListNotations.\nOpen Scope Q_scope.")
 
 
@@ -147,9 +147,9 @@ def run(ctx):
             findings.append((c, "mesh nodes are not the tube's (r, theta, z) grid in tube order"))
         if c["dim"] >= 2:
             lit = "[" + "; ".join("[" + "; ".join("%d%%nat" % n for n in el) + "]" for el in conn) + "]"
-            gen = "gen_conn2d %d %d" % (c["nr"], c["nt"]) if c["dim"] == 2 else "gen_conn3d %d %d %d" % (c["nr"], c["nt"], c["nz"])
+            gen = "conn2d %d %d" % (c["nr"], c["nt"]) if c["dim"] == 2 else "conn3d %d %d %d" % (c["nr"], c["nt"], c["nz"])
             terms.append("nat_lists_eqb (%s) %s" % (gen, lit))
-            owner.append((i, "the element connectivity differs from the generated cell table"))
+            owner.append((i, "the element connectivity differs from the cell table of the (r, theta, z) grid"))
         elif conn != [[k, k + 1] for k in range(c["nr"] - 1)]:
             findings.append((c, "1D connectivity is not the chain of radial nodes"))
         # pressure load
